@@ -84,6 +84,11 @@ CHECKS = {
    text="lockset_sound (if tableOK then no reachable configuration of any number of tunnels has two goroutines inside conflicting accesses to one resource instance), table_ok (decided on Generated/Access.lean: every package variable, Tunnel/Gateway/Processor field and the client writer/reader as accessed by the handler and the relay goroutine, with the mutexes held over all call paths), no_race, whole_packets_parse; pinned_fails shows the pinned tree's table failed in three places (D4, D5, D6; repaired). The table is the tie (translator); a -race build of the harness runs rounds of concurrent tunnels on both transports (data both ways, keep-alives, close / protocol error while the host is sending, abrupt disconnects) and turns race reports, concurrent-map/concurrent-write faults and client-side framing errors into replays.",
    design="6/C09",
    note="Proves the lock discipline, not the Go memory model. Trusted: the extraction (go/types based, lexical lock scopes, call-path intersection), the happens-before assumptions stated in Model/Access.lean (handler accesses before the `go` statement precede the relay; the legacy OUT handler finishes before the IN handler of the same tunnel starts), internally synchronised library types (go-cache, prometheus, net.Conn for one reader and one writer) which are listed in Generated.Access.whitelisted."),
+ "C05": dict(
+   technique="Lean 4 theorem handler_iff over a model of main()'s route table and the authentication middlewares + differential correspondence against the real binary started for every startable mechanism subset",
+   text="handler_iff (for every mechanism combination other than OpenID alone and every request: the tunnel handler is reached iff the first Authorization value parses as credentials of an enabled scheme that some value routes to and the backend confirms, and the tunnel's user is the confirmed one), no_header_401 and challenges_distinct (one challenge per enabled scheme), never_handler_otherwise, openid_only_open (Props/C05.lean). Tie: the real executable is started for each of the 11 startable subsets (TLS where the configuration demands it, fake IdP, fake gRPC authentication service that wraps the real NTLM verifier, generated keytab/krb5.conf) and sent a battery of Authorization headers (absent, empty, bare/truncated/wrong-case schemes, disabled schemes, several headers, wrong and right credentials) plus NTLM exchanges in order / with wrong passwords / across connections; status, WWW-Authenticate schemes and 101 upgrades are compared with Http.route; the confirmed user name is checked through a {{ preferred_username }} host entry.",
+   design="6/C05",
+   note="Kerberos positive path is not exercised (no KDC offline); PAM is not exercised (cmd/auth cannot be built: no PAM headers) — the fake service confirms a scripted table for Basic. gorilla/mux, net/http, gRPC and SPNEGO are trusted libraries whose routing semantics the model states (HeadersRegexp = unanchored substring on any value; handlers parse the first value)."),
 }
 
 def entry(pid, c):
